@@ -10,7 +10,7 @@ from .fam_common import Bench
 INF = 99
 
 
-def run_scenario(scn: dict, *, maxbuf: int = 0, ns: int = 1, nr: int = 1, eager: bool = False) -> dict:
+def run_scenario(scn: dict, *, maxbuf: int = 0, ns: int = 1, nr: int = 1, eager: bool = False, uv: bool = False) -> dict:
     from .replay import ensure_repo_on_path
     ensure_repo_on_path()
     import anyio
@@ -141,7 +141,7 @@ def run_scenario(scn: dict, *, maxbuf: int = 0, ns: int = 1, nr: int = 1, eager:
     import warnings
     with warnings.catch_warnings():
         warnings.simplefilter("ignore", ResourceWarning)
-        out = b.run(setup, client, eager=eager, params={"maxbuf": maxbuf, "ns": ns, "nr": nr})
+        out = b.run(setup, client, eager=eager, uv=uv, params={"maxbuf": maxbuf, "ns": ns, "nr": nr})
         st["S"].clear()
         st["R"].clear()
     return out
